@@ -2,6 +2,7 @@ package streamflow
 
 import (
 	"fmt"
+	"sort"
 
 	"github.com/rs/zerolog/log"
 )
@@ -99,8 +100,8 @@ func validateUnconnectedProcessors(flow *FlowDirection) error {
 
 // detectCircularConnections detects circular connections in the flow graph.
 func detectCircularConnections(flowDir *FlowDirection) error {
-	if flowDir.GetFlowType().IsResponseType() && !flowDir.HasValidRoot() {
-		return nil
+	if flowDir.GetFlowType().IsResponseType() {
+		return detectCircularConnectionsFromAnyNode(flowDir)
 	}
 
 	rootEdges := flowDir.root.node.edges
@@ -119,6 +120,27 @@ func detectCircularConnections(flowDir *FlowDirection) error {
 			return fmt.Errorf("circular connection detected - processor '%s'", proc)
 		}
 		log.Trace().Msgf("No cycle detected for processor %s", proc)
+	}
+
+	return nil
+}
+
+// detectCircularConnectionsFromAnyNode searches cycles starting at every node.
+// A response walk does not only start at the root: an early response continues
+// from the response node of the answering processor, which need not be reachable
+// from the root, and a response direction may have no root at all.
+func detectCircularConnectionsFromAnyNode(flowDir *FlowDirection) error {
+	processorKeys := make([]string, 0, len(flowDir.nodes))
+	for processorKey := range flowDir.nodes {
+		processorKeys = append(processorKeys, processorKey)
+	}
+	sort.Strings(processorKeys)
+
+	for _, processorKey := range processorKeys {
+		visitedByCondition := make(map[string]map[string]bool)
+		if !dfsDetectCycles(flowDir.nodes[processorKey], visitedByCondition, processorKey, "") {
+			return fmt.Errorf("circular connection detected - processor '%s'", processorKey)
+		}
 	}
 
 	return nil
